@@ -65,6 +65,9 @@ def items(tier: str, seed: int) -> list[dict]:
             add(phases=phases, workers=workers, p=b["preemptions_worker_stages"] if workers > 1 else 0)
             add(phases=phases, workers=workers, behaviour="fail:/b", p=b["preemptions_worker_stages"] if workers > 1 else 0)
     add(behaviour="fail:/b", cof=True)
+    # one operation failing in two different ways in two phases (example value vs generated values): both must reach the report
+    add(phases=["examples", "coverage", "fuzzing"], behaviour="two_kinds:/a", extra_checks="status")
+    add(phases=["examples", "fuzzing"], behaviour="two_kinds:/a", extra_checks="status", cof=True)
     add(behaviour="all500", max_failures=1, workers=2, p=b["preemptions_worker_stages"])
     add(behaviour="fail:/b", unique=True)
     add(doc="link", phases=["stateful"], behaviour="ok")
@@ -169,6 +172,30 @@ def judge(item: dict, run: Any, r: Any, fault_state: Any, res: Result, current_i
         res.violation({**base, "kind": kind, **{k: v for k, v in facts.items() if k in ("phase",)}},
                       detail | facts | {"exit_code": repr(code), "console_tail": console[-600:]}, current_item)
 
+    # every distinct check failure the engine recorded must be present in the CLI's statistic (the source of the FAILURES
+    # section, the summary counts and the JUnit report) once all events went through the real ExecutionContext
+    from schemathesis.cli.commands.run.context import ExecutionContext
+
+    cli_ctx = ExecutionContext()
+    try:
+        for e in events:
+            cli_ctx.on_event(e)
+        recorded = set()
+        for e, n in zip(events, names):
+            if n == "ScenarioFinished":
+                for cs in e.recorder.checks.values():
+                    for c in cs:
+                        if c.failure_info is not None:
+                            recorded.add(c.failure_info.failure)
+        reported = {f for groups in cli_ctx.statistic.failures.values() for g in groups.values() for f in g.failures}
+        lost = recorded - reported
+        if lost:
+            bad("recorded_check_failure_missing_from_cli_statistic", lost=sorted(type(f).__name__ + ":" + str(getattr(f, "title", "")) for f in lost),
+                reported=len(reported), recorded=len(recorded))
+        if len(recorded) >= 2:
+            res.count("runs_with_two_or_more_distinct_failures")
+    except Exception as exc:  # noqa: BLE001 - a crash while the CLI context consumes events is judged by C16
+        res.count("cli_context_raised:" + type(exc).__name__)
     fired = bool(fault_state and fault_state.fired) and stage != "cli_handler"
     if stage == "cli_handler":
         if not nonzero:
